@@ -156,6 +156,9 @@ CmdRet == /\ E.ev = "cmd_ret"
 \* the writer saw stopChan closed: from now on it answers outstanding and queued commands with an error
 WStop == /\ E.ev = "w_stop" /\ stopping' = TRUE /\ Ok
          /\ UNCHANGED <<x, nmsg, hdr, toReport, toWriter, cur, pend, cbQ, wireQ, pser, issued, written, outstanding, matched, expectRet, returned, activeCb>>
+\* C09: the harness kept every *Message it was handed and compares it, after later traffic and after the
+\* connection closed, with the snapshot taken at delivery (body, raw frame, id, phone, serial, package numbers)
+Recheck == /\ E.ev = "recheck" /\ bad' = Flag(E.same, "DeliveredMessageChanged_" \o E.field) /\ diverged' = diverged /\ Same
 \* the harness waited for quiescence: nothing may be left anywhere
 End == /\ E.ev = "end"
        /\ LET what == IF toReport # <<>> THEN "MessageNeverReported"
@@ -168,11 +171,11 @@ End == /\ E.ev = "end"
           IN bad' = Flag(what = "ok", what) /\ diverged' = (diverged \/ what # "ok") /\ Same
 \* events the specification does not constrain here (registry, teardown, timers: Trace_Registry / C13)
 Other == /\ E.ev \notin {"reset", "send", "readcb", "unsupported", "w_msg", "reply_begin", "writecb", "recv",
-                         "cmd_call", "cmd_written", "resp_match", "w_complete", "cmd_ret", "end", "w_stop"}
+                         "cmd_call", "cmd_written", "resp_match", "w_complete", "cmd_ret", "end", "w_stop", "recheck"}
          /\ Ok /\ Same
 
 Step == Reset \/ Send \/ ReadCb \/ WMsg \/ ReplyBegin \/ WriteCb \/ Recv \/ CmdCall \/ CmdWritten \/ RespMatch \/ WComplete
-        \/ CmdRet \/ End \/ WStop \/ Other
+        \/ CmdRet \/ End \/ WStop \/ Recheck \/ Other
 Next == l <= Len(Trace) /\ l' = l + 1 /\ Step
 Done == l = Len(Trace) + 1
 Report == Done => CSVWrite("%1$s", <<ToJson([bad |-> bad, n |-> Len(Trace)])>>, IOEnv.VERIF_OUT)
